@@ -104,12 +104,13 @@ type (
 )
 
 const (
-	simnodeStatus   = simnode.Status
-	simnodeSilent   = simnode.Silent
-	simnodeDrop     = simnode.Drop
-	simnodeDelay    = simnode.Delay
-	cmdObserveSeqNo = memd.CmdObserveSeqNo
-	statusTmpFail   = memd.StatusTmpFail
+	simnodeStatus     = simnode.Status
+	simnodeSilent     = simnode.Silent
+	simnodeDrop       = simnode.Drop
+	simnodeDelay      = simnode.Delay
+	cmdObserveSeqNo   = memd.CmdObserveSeqNo
+	cmdGetFailoverLog = memd.CmdDcpGetFailoverLog
+	statusTmpFail     = memd.StatusTmpFail
 )
 
 func simnodeNew(servers, numVb, replicas int) *simnode.Cluster {
